@@ -33,7 +33,9 @@ func init() {
 	},
 		batches:  func(th bool) int { return map[bool]int{false: 4, true: 20}[th] },
 		parallel: func(th bool) int { return 4 },
-		timeout:  func(th bool) time.Duration { return map[bool]time.Duration{false: 20 * time.Minute, true: 90 * time.Minute}[th] },
+		timeout: func(th bool) time.Duration {
+			return map[bool]time.Duration{false: 20 * time.Minute, true: 90 * time.Minute}[th]
+		},
 	})
 }
 
@@ -95,7 +97,10 @@ var c04Model = porcupine.Model{
 	},
 }
 
-func addrStr(a interface{ IsValid() bool; String() string }) string {
+func addrStr(a interface {
+	IsValid() bool
+	String() string
+}) string {
 	if !a.IsValid() {
 		return ""
 	}
